@@ -1,4 +1,4 @@
-//! C17 driver: call trees over syscall / named_syscall / spawned_syscall, executed on a real World.
+//! C17 driver: call trees over syscall / named_syscall / named_syscall_direct / spawned_syscall, executed on a real World.
 //! Line format: `id=kind:fields:children ... top=ids` (see tools/gen_c17.py). Prints body and return events.
 use bevy::prelude::*;
 use bevy_cobweb::prelude::*;
@@ -14,6 +14,7 @@ enum Node
 {
     Sc{ id: u32, t: u32, v: u32, kids: Vec<u32> },
     Nm{ id: u32, name: u32, t: u32, v: u32, kids: Vec<u32> },
+    Nd{ id: u32, name: u32, t: u32, v: u32, kids: Vec<u32> },
     Sy{ id: u32, sid: u32, v: u32, kids: Vec<u32> },
     Sp{ sid: u32, t: u32 },
     Ds{ sid: u32 },
@@ -42,6 +43,9 @@ fn sysfn_x(In(arg): In<Arg>, world: &mut World, mut local: Local<u32>) -> u32
     arg.v * 100 + *local
 }
 
+/// the key named_syscall derives for (name, system type): the system's type is only nameable through inference
+fn sysname_of<S: 'static>(_system: &S, name: u32) -> SysName { SysName::new::<S>(name) }
+
 fn exec(world: &mut World, id: u32, nodes: &Arc<HashMap<u32, Node>>)
 {
     match nodes[&id].clone()
@@ -57,6 +61,16 @@ fn exec(world: &mut World, id: u32, nodes: &Arc<HashMap<u32, Node>>)
             let arg = Arg{ id, key: format!("named{name}.{t}"), v, kids, nodes: nodes.clone() };
             let out = match t { 0 => named_syscall(world, name, arg, sysfn::<0>), 1 => named_syscall(world, name, arg, sysfn::<1>), _ => named_syscall(world, name, arg, sysfn_x) };
             log(format!("ret {id} {out}"));
+        }
+        Node::Nd{ id, name, t, v, kids } =>
+        {
+            let arg = Arg{ id, key: format!("named{name}.{t}"), v, kids, nodes: nodes.clone() };
+            let sys_name = match t { 0 => sysname_of(&sysfn::<0>, name), 1 => sysname_of(&sysfn::<1>, name), _ => sysname_of(&sysfn_x, name) };
+            match named_syscall_direct::<In<Arg>, u32>(world, sys_name, arg)
+            {
+                Ok(out) => log(format!("ret {id} {out}")),
+                Err(_) => log(format!("ret {id} err")),
+            }
         }
         Node::Sy{ id, sid, v, kids } =>
         {
@@ -101,6 +115,7 @@ fn parse_line(line: &str) -> (HashMap<u32, Node>, Vec<u32>)
         {
             ["sc", t, v, ch] => Node::Sc{ id, t: num(t), v: num(v), kids: kids(ch) },
             ["nm", name, t, v, ch] => Node::Nm{ id, name: num(name), t: num(t), v: num(v), kids: kids(ch) },
+            ["nd", name, t, v, ch] => Node::Nd{ id, name: num(name), t: num(t), v: num(v), kids: kids(ch) },
             ["sy", sid, v, ch] => Node::Sy{ id, sid: num(sid), v: num(v), kids: kids(ch) },
             ["sp", sid, t] => Node::Sp{ sid: num(sid), t: num(t) },
             ["ds", sid] => Node::Ds{ sid: num(sid) },
